@@ -47,7 +47,7 @@ def run(ctx):
     hc.summarize(ctx, lines, nontrivial,
                  "one evaluation = one host call on the real Omega function with full before/after state; non-trivial = the call continued and changed register 7, guest memory or the context "
                  "(the rest are panics, out-of-gas exits and unchanged answers, which the frame judges as well)")
-    hc.judge(ctx, lines, "c07", "host call breaks the frame / differs from the specified outcome", 700 if quick else 2500, 5 if quick else 14)
+    hc.judge(ctx, lines, "c07", "host call breaks the frame / differs from the specified outcome", 400 if quick else 2500, 6 if quick else 14)
     if getattr(ctx, "selftest", False) or not quick:
         def corrupt(e):
             if e["ev"] == "Call" and e["post"]["exit"] == "cont" and hc.val(e["id"]) == 3:
